@@ -875,4 +875,6 @@ func TestVerifC14(t *testing.T) {
 	r.Cases("blockreq", n, func(c *vcommon.Case) { checkBlockRequest(c, GenBlockRequest(c.R)) })
 	r.Cases("blockresp", n, func(c *vcommon.Case) { checkBlockResponse(c, GenBlockResponse(c.R, true)) })
 	checkReuse(r, r.Scale(300))
+	// compact commit (justificationToCompact / compactToJustification) and Block.Encode (c14_compact_test.go)
+	checkCompactAndBlock(r, r.Scale(500))
 }
